@@ -217,6 +217,12 @@ def to_case(ob):
     D = model_int(ob.model, "D")
     if D is None or D < 1 or D > 4096:
         return None
+    L = model_int(ob.model, "L")
+    cases = []
+    for d, l in ((D, L), (D, D), (D, max(1, D - 1)), (D + 1, D), (8, 5), (8, 8), (9, 9), (12, 7)):
+        cases.append({"kind": "frame_walk", "D": d, "L": l if l and l <= d else d, "real": False, "power": bool(model_int(ob.model, "self._power", False)),
+                      "log": False, "energy": True})
+    return cases
     return {"kind": "frame_walk", "D": D, "real": bool(model_int(ob.model, "self._real", False)),
             "power": bool(model_int(ob.model, "self._power", False)), "log": bool(model_int(ob.model, "self._log", False)),
             "energy": bool(model_int(ob.model, "self._include_energy", False))}
